@@ -26,7 +26,7 @@ PROPS = {
     },
     "C12": {
         "timeouts_not_mine": True,
-        "lean_modules": ["Props.C20b", "Props.Gen20", "Props.GenT20"],
+        "lean_modules": ["Props.C20b", "Props.Gen20", "Props.GenT20", "Props.Gen12", "Props.GenT12"],
         "groups": [{"name": "render", "quick": 3000, "thorough": 80000}, {"name": "mediaL", "quick": 600, "thorough": 20000, "workers": 12},
                    # numbers typed in the real UI (also while a media hook is running): what the hook is started with
                    {"name": "C07", "quick": 160, "thorough": 4000, "workers": 16},
@@ -278,7 +278,7 @@ PROPS = {
         "assumptions": ["Config.Safe is the only configuration hypothesis used by the panic-freedom theorems of C06/C07/C20"],
     },
     "C20": {
-        "lean_modules": ["Props.Facts19", "Props.C20b", "Props.Facts20", "Props.Gen20", "Props.GenT20"],
+        "lean_modules": ["Props.Facts19", "Props.C20b", "Props.Facts20", "Props.Gen20", "Props.GenT20", "Props.Gen12", "Props.GenT12"],
         "groups": [{"name": "C20", "quick": 600, "thorough": 20000, "workers": 12},
                    {"name": "media", "quick": 600, "thorough": 20000, "workers": 12},
                    # configuration files through the real parser: the hook that reaches openExternally is the configured one
